@@ -164,15 +164,29 @@ def register(T, repo):
         if mode == 'proof':
             return {'nargs': fresh_int('nargs')}
         return {'nargs': seq_len(vals['args'])}
+
+    # the run-time guard of Expandable.__init__: returns its argument, or
+    # does not return (utils.fatal); afterwards every argument reference of
+    # the list is in range -- proved as loop body contract, handed to the
+    # caller as a refinement of the very list that was passed in
+    def chk_refine(ex, st, A):
+        from pyvc.engine import refine_list
+        pred = pm.body_pred(A['nargs'])
+        refine_list(ex, st, A['toks'], lambda ex_, s_, e: pred(ex_, e))
     c = T.add(FContract(
         CHK, ghosts=chk_ghost,
-        params=lambda G: {'toks': BodyList(G['nargs']),
+        params=lambda G: {'toks': BodyList(None),
                           'args': StrS(name='a')},
         requires=[('nargs', lambda A: zint(A['nargs']) ==
                    zint(seq_len(A['args'])))],
-        returns_param='toks', pure=True,
+        result=lambda A: BodyList(A['nargs']),
+        returns_param='toks', pure=True, effects=chk_refine,
         free={'name': StrS(name='name')}))
-    c.loop(0).invs.append(('true', lambda E: True))
+    lp = c.loop(0)
+    lp.invs.append(('true', lambda E: True))
+    lp.body_post.append(('argument-reference-in-range', lambda E0, E1:
+                         pm.body_pred(E1['nargs'])(E1['$ex'], E1['t'])))
+    lp.on_exit = lambda E, st: chk_refine(st.ex, st, E)
 
     def list_contains(ex, st, coll, x, line):
         # membership in a summarised list of strings: unknown, except that
@@ -254,9 +268,21 @@ def register(T, repo):
                    ('parser', P_self, post_parser)]))
 
     # ------------------------------------------------- small text helpers
+    def display_text_of_output(A):
+        # C11: the punctuation mark kept for a displayed equation is the
+        # last character of the RENDERED equation -- expand_display_math
+        # asks for the text of its output list `out`, nothing else
+        ex, st = A['$ex'], A['$st']
+        if not (ex.cur_func or '').endswith('.expand_display_math'):
+            return True
+        out = st.env.get('out')
+        return bool(isinstance(out, TokList) and isinstance(
+            A['toks'], TokList) and out.lid == A['toks'].lid)
     T.add(FContract(
         PAR + 'get_text_direct', ghosts=parser_ghost,
         params=lambda G: {'self': AnyS(), 'toks': ListS(AnyS(), None)},
+        requires=[('display-punctuation-read-from-rendered-output',
+                   display_text_of_output)],
         result=lambda A: StrS(name='text'),
         ensures=[('empty-list-empty-text', lambda A, r: Implies(
             zint(A['toks'].length()) == 0, zint(seq_len(r)) == 0))],
@@ -434,6 +460,59 @@ def register(T, repo):
             return A['math']
         return True
 
+    # C09 / C19, ghost history of the activation: `$expansions` is the
+    # sequence of macro objects handed to expand_arguments (appended by the
+    # call-site effect of its contract).  Declared at entry  <=>  exactly one
+    # expansion, of the_macros[name]; undeclared => no expansion, and the
+    # name is recorded in `unknowns` iff it is used in text mode and was not
+    # recorded before.
+    def em_olds(A):
+        ex, st = A['$ex'], A['$st']
+        d = A['self'].fields['the_macros']
+        u = A['self'].fields['unknowns']
+        name = A['tok'].fields['txt']
+        return {'declared': d.has(ex, st, name),
+                'mac_oid': d.default_mk(ex, st, name).oid,
+                'unk_lid': u.lid,
+                'unk_writes': len(st.writes_of(u)),
+                'nexp': len(st.ghost.get('$expansions', ()))}
+
+    def em_calls(A):
+        return A['$st'].ghost.get('$expansions', ())[A['old']['nexp']:]
+
+    def em_appends(A):
+        st, old = A['$st'], A['old']
+        return len([w for w in st.writes if w[0] == old['unk_lid']]) - \
+            old['unk_writes']
+
+    def em_declared_expanded(A, r):
+        calls = em_calls(A)
+        return Implies(A['old']['declared'], bool(
+            len(calls) == 1 and calls[0] == A['old']['mac_oid']))
+
+    def em_undeclared_not_expanded(A, r):
+        return Implies(Not(A['old']['declared']), len(em_calls(A)) == 0)
+
+    def em_no_record(A, r):
+        return Implies(Or(A['old']['declared'], A['math']),
+                       em_appends(A) == 0)
+
+    def em_record(A, r):
+        # undeclared and in text mode: the name was in the list already
+        # (ghost answer of the membership test) or is appended now
+        st, old = A['$st'], A['old']
+        u = A['self'].fields['unknowns']
+        name = lift_str(A['tok'].fields['txt'])
+        memb = st.ghost.get('$memq', {}).get(
+            (old['unk_lid'], old['unk_writes'], name.arr.sexpr()))
+        done = False
+        if u.lid == old['unk_lid'] and em_appends(A) == 1 and u.segs and \
+                isinstance(u.segs[-1], Single) and \
+                sym.is_str(u.segs[-1].obj):
+            done = sym.seq_eq(lift_str(u.segs[-1].obj), name)
+        return Implies(And(Not(A['old']['declared']), Not(A['math'])),
+                       Or(done, memb if memb is not None else False))
+
     c = T.add(FContract(
         PAR + 'expand_macro', ghosts=parser_ghost,
         params=lambda G: {'self': ParserS(G['src']),
@@ -442,10 +521,20 @@ def register(T, repo):
                           'math': BoolS('math')},
         requires=[('maths-calls-pass-math-true', from_maths)],
         result=lambda A: tm.DocList(A['src']),
+        olds=em_olds,
+        proof_ensures=[
+            ('declared-macro-is-expanded', em_declared_expanded),
+            ('undeclared-macro-not-expanded', em_undeclared_not_expanded),
+            ('unknowns:no-record-when-declared-or-maths', em_no_record),
+            ('unknowns:undeclared-text-use-recorded', em_record)],
         post_objs=[('buffer', lambda A: A['buf'], post_buf),
                    ('parser', P_self, post_parser)]))
 
     # ---------------------------------------------------- expand_arguments
+    def note_expansion(ex, st, A):
+        st.ghost['$expansions'] = st.ghost.get('$expansions', ()) + (
+            A['mac'].oid,)
+
     c = T.add(FContract(
         PAR + 'expand_arguments', ghosts=parser_ghost,
         params=lambda G: {'self': ParserS(G['src']),
@@ -454,6 +543,7 @@ def register(T, repo):
                           'start': IntS(name='start')},
         requires=[('start-in-range', in_range)],
         result=lambda A: tm.DocList(A['src'], lambda n: zint(n) >= 1),
+        effects=note_expansion,
         post_objs=[('buffer', lambda A: A['buf'], post_buf),
                    ('parser', P_self, post_parser)]))
     lp = c.loop(0)
@@ -675,6 +765,42 @@ def register(T, repo):
     c.loop(1).invs.append(('true', lambda E: True))
     loop_parser_shapes(c.loop(0), buf=None)
     loop_parser_shapes(c.loop(1), buf=None)
+    for k in (0, 1):
+        for f in ('latex', 'max_pos', 'pos'):
+            c.loop(k).modifies.append('self.parms.scanner.' + f)
+    # loop 0 iterates over the_macros and replaces fields of the macros,
+    # the dictionary itself is not written
+    del c.loop(0).shapes['self.the_macros']
+
+    # C18, first half: the extraction text handed to the scanner for a
+    # listed macro is '' or '#k' where k-1 is the index of the FIRST
+    # mandatory argument ('A') of the macro's argument code.  str(int)
+    # carries the ghost tag ('decimal', value) (pyvc/builtins.py b_str);
+    # that the scanner turns '#k' into the reference to argument k is the
+    # evaluation lemma of props/C18.py.
+    def extraction_text_ok(A):
+        from pyvc import builtins as _bi
+        ex, st = A['$ex'], A['$st']
+        if not (ex.cur_func or '').endswith('.init_extractions') or \
+                'extracts' not in st.env or 'mac' not in st.env:
+            return True     # other callers, incl. constructors inlined here
+        v = A['latex']
+        if isinstance(v, str):
+            return v == ''
+        tag = getattr(v, 'tag', None)
+        mac = st.env.get('mac')
+        if not (isinstance(tag, tuple) and tag[0] == 'decimal' and
+                isinstance(mac, Obj)):
+            return False
+        k = zint(tag[1])
+        a = lift_str(mac.fields['args'])
+        return And(zint(v.ln) == 1 + _bi.str_of_int_len(k),
+                   v.at(0) == ord('#'),
+                   1 <= k, k <= zint(a.ln), a.at(k - 1) == ord('A'),
+                   forall(0, k - 1, lambda j: a.at(j) != ord('A')))
+    T.get('yalafi.scanner.Scanner.scan').requires.append(
+        ('extraction-refers-to-first-mandatory-argument',
+         extraction_text_ok))
 
     # the flows collected so far are never dropped by the expander: the
     # list only grows (needed for the purity of get_text_expanded)
